@@ -31,10 +31,31 @@ PURE = {
     "nni_aio_get_prov_data", "nni_aio_set_prov_data", "nni_free", "nni_strfree", "nni_aio_set_iov",
     "nni_aio_iov_advance", "nni_aio_abort", "nni_aio_set_output", "nni_aio_set_input", "isxdigit", "isdigit",
     "isalpha", "isspace", "tolower", "toupper", "nni_strnlen", "strchr", "strrchr", "strstr", "nni_aio_close",
-    "nni_time", "nni_random", "nni_ntohs", "nni_htons",
+    "nni_time", "nni_random", "nni_ntohs", "nni_htons", "sub0_matches", "nni_aio_completions_add",
+    "nni_aio_completions_init", "nni_copyin_int", "nni_copyin_size", "nni_copyin_bool", "nni_copyin_ms",
 }
 
+# callees whose writes are confined to the object passed as their first argument
+CONFINED_PREFIX = ("nni_lmq_", "nni_list_", "nni_aio_", "nni_msg_", "nng_msg_", "nni_pollable_", "nni_id_", "nni_stat_",
+                   "nni_cv_", "nni_mtx_", "nni_atomic_", "nni_msgq_", "nni_pipe_send", "nni_pipe_recv", "nni_sleep_aio",
+                   "nng_aio_", "nni_pipe_close", "nni_pipe_id", "nni_pipe_bump", "nni_sock_bump")
+
 MAX_STATES = 60000
+
+
+def _mentions(c):
+    out = set()
+    for n in walk(c):
+        if n.get("k") in ("var", "mem", "idx"):
+            p = apath(n)
+            if p:
+                out.add(p)
+    return frozenset(out)
+
+
+def _has_call(c):
+    return any(n.get("k") == "call" and n.get("fn") not in PURE for n in walk(c))
+
 
 
 class Facts:
@@ -113,6 +134,10 @@ class Client:
         new state, or None if this edge is infeasible for the client."""
         return st
 
+    def equal(self, st, lhs, rhs, sim):
+        """Known (in)equality of two expressions, or None."""
+        return None
+
     def at_exit(self, st, sim, via_block):
         pass
 
@@ -121,7 +146,11 @@ class Client:
 
 
 class Sim:
-    def __init__(self, fn, client, max_states=MAX_STATES, entry_facts=None):
+    def __init__(self, fn, client, max_states=MAX_STATES, entry_facts=None, once=None):
+        # once: [(predicate(cond) -> bool, succ index)]: that edge of a matching
+        # condition can be taken at most once per path (documented loop-bound
+        # assumptions supplied by a rule's exception table)
+        self.once = once or []
         self.fn = fn
         self.client = client
         self.max_states = max_states
@@ -248,7 +277,8 @@ class Sim:
         if k == "asg":
             p = apath(n["lhs"])
             if p is not None:
-                facts = facts.kill(lambda q, p=p: q[:len(p)] == p)
+                facts = facts.kill(lambda q, p=p: q[:len(p)] == p or
+                                   (q[0] == "<cond>" and any(m[:len(p)] == p for m in q[2])))
                 if n.get("op") == "=" and "[]" not in p:
                     rhs = fn.expand(n["rhs"])
                     cv = const_of(rhs) if rhs is not None and rhs.get("k") in ("int", "enum") else None
@@ -266,15 +296,16 @@ class Sim:
                         facts = facts.set(p, ("NZ",))
             else:
                 # write through something we cannot name: drop field facts
-                facts = facts.kill(lambda q: len(q) > 1)
+                facts = facts.kill(lambda q: len(q) > 1 and q[0] != "<once>")
         elif k == "un" and n.get("op") in ("++", "--"):
             p = apath(n["e"])
             if p is not None:
-                facts = facts.kill(lambda q, p=p: q[:len(p)] == p)
+                facts = facts.kill(lambda q, p=p: q[:len(p)] == p or
+                                   (q[0] == "<cond>" and any(m[:len(p)] == p for m in q[2])))
         elif k == "decls":
             for d in n["d"]:
                 p = (d["n"],)
-                facts = facts.kill(lambda q, p=p: q[:1] == p)
+                facts = facts.kill(lambda q, p=p: q[:1] == p or (q[0] == "<cond>" and any(m[:1] == p for m in q[2])))
                 if d.get("init") is not None:
                     rhs = fn.expand(d["init"])
                     cv = const_of(rhs) if rhs is not None and rhs.get("k") in ("int", "enum") else None
@@ -295,9 +326,21 @@ class Sim:
                 if a is not None and a.get("k") == "un" and a.get("op") == "&":
                     p = apath(a)
                     if p is not None:
-                        facts = facts.kill(lambda q, p=p: q[:len(p)] == p)
-            if n.get("fn") not in PURE:
-                facts = facts.kill(lambda q: len(q) > 1)
+                        facts = facts.kill(lambda q, p=p: q[:len(p)] == p or
+                                           (q[0] == "<cond>" and any(m[:len(p)] == p for m in q[2])))
+            f = n.get("fn")
+            if f not in PURE:
+                if f and f.startswith(CONFINED_PREFIX) and n["args"]:
+                    a0 = fn.expand(n["args"][0])
+                    p0 = apath(a0) if a0 is not None else None
+                    if p0 is not None:
+                        facts = facts.kill(lambda q, p=p0: (q[0] not in ("<once>", "<cond>") and len(q) > 1 and q[:len(p)] == p) or
+                                           (q[0] == "<cond>" and any(m[:len(p)] == p for m in q[2])))
+                    else:
+                        facts = facts.kill(lambda q: len(q) > 1 and q[0] != "<once>")
+                else:
+                    facts = facts.kill(lambda q: (len(q) > 1 and q[0] not in ("<once>", "<cond>")) or
+                                       (q[0] == "<cond>" and any(len(m) > 1 for m in q[2])))
         return facts
 
     # -- main loop ------------------------------------------------------------
@@ -359,15 +402,58 @@ class Sim:
                 self.facts = facts1
                 if blk.term and "cond" in blk.term and len(succs) == 2:
                     c = fn.cond(b)
+                    forced = None
+                    if c is not None and c.get("k") == "bin" and c.get("op") in ("==", "!="):
+                        eq = cl.equal(st1, c["lhs"], c["rhs"], self)
+                        if eq is not None:
+                            forced = 0 if (eq == (c["op"] == "==")) else 1
+                    if forced is not None:
+                        if succs[forced] is not None:
+                            work.append((succs[forced], facts1, st1, trace))
+                        continue
                     sj = self.subject(c)
+                    ckey = None
+                    if sj is None and c is not None and not _has_call(c):
+                        ckey = ("<cond>", show(c), _mentions(c))
+                        known = facts1.get(ckey)
+                        if known is not None:
+                            k0 = 0 if known[0] == "NZ" else 1
+                            # same condition, nothing it mentions was written since: same outcome
+                            if self.once and any(idx == k0 and pred(c) for pred, idx in self.once):
+                                continue   # ... but that edge may be taken only once
+                            if succs[k0] is not None:
+                                work.append((succs[k0], facts1, st1, trace))
+                            continue
                     for k, s in enumerate(succs):
                         if s is None:
                             continue
+                        if ckey is not None:
+                            facts_k = facts1.set(ckey, ("NZ",) if k == 0 else ("Z",))
+                        else:
+                            facts_k = facts1
+                        if self.once and c is not None:
+                            hit = False
+                            for pred, idx in self.once:
+                                if idx == k and pred(c):
+                                    hit = True
+                            if hit:
+                                okey = ("<once>", b, k)
+                                if facts_k.get(okey) is not None:
+                                    continue
+                                f_once = facts_k.set(okey, ("NZ",))
+                                if sj is None:
+                                    work.append((s, f_once, st1, trace))
+                                else:
+                                    val = sj[1] if k == 0 else sj[2]
+                                    r = self._apply(f_once, st1, sj[0], val)
+                                    if r is not None:
+                                        work.append((s, r[0], r[1], trace))
+                                continue
                         if sj is None:
-                            work.append((s, facts1, st1, trace))
+                            work.append((s, facts_k, st1, trace))
                             continue
                         val = sj[1] if k == 0 else sj[2]
-                        r = self._apply(facts1, st1, sj[0], val)
+                        r = self._apply(facts_k, st1, sj[0], val)
                         if r is None:
                             continue
                         work.append((s, r[0], r[1], trace))
